@@ -135,6 +135,9 @@ func expectedContainerLabels(c CSpec) (map[string]string, bool) {
 	m := map[string]string{
 		"container": name, "container_id": c.ID, "container_name": name, "container_image": c.Image,
 		"container_state": c.State,
+		// what CSpec.container() reports for the remaining built-in fields
+		"container_image_id": "sha256:" + c.Image, "container_command": "/bin/" + c.Image,
+		"container_created": "1700000000", "container_status": "Up 1 hour",
 	}
 	ok := true
 	seen := map[string]bool{}
